@@ -13,6 +13,7 @@
 //	serve <cwd> <root> <hide> <index> <flags> <path> <orig> <tree>
 //	      flags = browse, pass_thru, canonical_uris [, root / every hide entry / every index name is
 //	      configured as a {http.vars.…} placeholder expanding to the field's value]
+//	pair <fault> <serve fields A> // <serve fields B>     (request sequence, see runPair)
 //	matchfile <cwd> <root> <tries> <fallback> <path> <tree>
 //
 // see lean/CaddyModel/C07/Driver.lean for the field grammar and the answers.
@@ -21,9 +22,11 @@ package c07
 import (
 	"context"
 	"encoding/json"
+	"errors"
 	"fmt"
 	"net/http"
 	"net/http/httptest"
+	"os"
 	"path"
 	"path/filepath"
 	"sort"
@@ -216,6 +219,7 @@ type serveCase struct {
 	phRoot, phHide, phIndex bool
 	pre      [3]bool  // precompressed gzip, br, zstd configured
 	accepted []string // what encode.AcceptedEncodings shall return, in order
+	fault    faultSpec // only inside a `pair` case: how this request's listing fails to be delivered
 	path, orig        string
 	tree              map[string]kind
 }
@@ -230,6 +234,58 @@ type serveObs struct {
 	fileName string   // name of the file handle that was read
 	sidecarEnc string // Content-Encoding of a served precompressed sidecar
 	fs       *memFS
+}
+
+// faultSpec: a listing that is rendered but not (completely) delivered.
+//
+//	kind 'w': the client's connection fails after k body bytes (Write returns n<len, error)
+//	kind 't': a custom browse template that fails after it has printed the items
+type faultSpec struct {
+	kind byte
+	k    int
+}
+
+// failingWriter delivers the first k body bytes and then fails like a reset connection.
+type failingWriter struct {
+	http.ResponseWriter
+	left int
+}
+
+func (f *failingWriter) Write(p []byte) (int, error) {
+	if len(p) <= f.left {
+		f.left -= len(p)
+		return f.ResponseWriter.Write(p)
+	}
+	n, _ := f.ResponseWriter.Write(p[:f.left])
+	f.left = 0
+	return n, errors.New("write: connection reset by peer")
+}
+
+var (
+	tplOnce sync.Once
+	tplDir  string
+	tplFile string
+)
+
+// faultTemplate writes (once) a browse template that prints every item and then fails.
+func faultTemplate() string {
+	tplOnce.Do(func() {
+		d, err := os.MkdirTemp(".", "c07tpl-")
+		if err != nil {
+			return
+		}
+		tplDir, _ = filepath.Abs(d)
+		tplFile = filepath.Join(tplDir, "fault.html")
+		_ = os.WriteFile(tplFile, []byte("LISTING {{range .Items}}[{{.Name}}]{{end}}{{httpError 500}}"), 0o644)
+	})
+	return tplFile
+}
+
+// Finish removes the template directory (called by core.Main).
+func (prop) Finish(*core.Session) {
+	if tplDir != "" {
+		os.RemoveAll(tplDir)
+	}
 }
 
 func newRequest(orig, cur string) (*http.Request, *httptest.ResponseRecorder) {
@@ -286,6 +342,9 @@ func runServe(c serveCase) (serveObs, error) {
 	}
 	if c.browse {
 		fsrv.Browse = &fileserver.Browse{}
+		if c.fault.kind == 't' {
+			fsrv.Browse.TemplateFile = faultTemplate()
+		}
 	}
 	for i, name := range []string{"gzip", "br", "zstd"} {
 		if c.pre[i] {
@@ -315,7 +374,14 @@ func runServe(c serveCase) (serveObs, error) {
 	}
 	o := serveObs{fs: m}
 	next := caddyhttp.HandlerFunc(func(http.ResponseWriter, *http.Request) error { o.nextHit = true; return nil })
-	err := fsrv.ServeHTTP(w, r, next)
+	var rw http.ResponseWriter = w
+	switch c.fault.kind {
+	case 'w':
+		rw = &failingWriter{ResponseWriter: w, left: c.fault.k}
+	case 't':
+		r.Header.Set("Accept", "text/html")
+	}
+	err := fsrv.ServeHTTP(rw, r, next)
 	o.status = w.Code
 	o.body = w.Body.String()
 	if len(m.readFile) > 0 {
@@ -448,6 +514,147 @@ func runMatch(c matchCase) (matchObs, error) {
 	return o, nil
 }
 
+// parseServe parses the fields of a serve case; f[0] is ignored ("serve").
+func parseServe(f []string) (serveCase, bool) {
+	var c serveCase
+	if len(f) != 9 && len(f) != 11 {
+		return c, false
+	}
+	var e [4]error
+	var ok1, ok2, ok3, ok4 bool
+	var bits []bool
+	c.cwd, e[0] = core.UnHex(f[1])
+	c.root, e[1] = core.UnHex(f[2])
+	c.hide, ok1 = parseList(f[3])
+	c.index, ok2 = parseList(f[4])
+	bits, ok3 = parseBits(f[5], len(f[5]))
+	if len(f[5]) != 3 && len(f[5]) != 6 {
+		ok3 = false
+	}
+	c.path, e[2] = core.UnHex(f[6])
+	c.orig, e[3] = core.UnHex(f[7])
+	c.tree, ok4 = parseTree(f[8])
+	if e[0] != nil || e[1] != nil || e[2] != nil || e[3] != nil || !ok1 || !ok2 || !ok3 || !ok4 || !validCwd(c.cwd) {
+		return c, false
+	}
+	if len(f) == 11 {
+		pb, okp := parseBits(f[9], 3)
+		acc, oka := parseList(f[10])
+		if !okp || !oka {
+			return c, false
+		}
+		for _, a := range acc {
+			// names are sent in a header field; keep them token-like and lower-case
+			if a == "" || strings.ToLower(a) != a || strings.ContainsAny(a, " ,;=\t\r\n\x00") {
+				return c, false
+			}
+		}
+		c.pre, c.accepted = [3]bool{pb[0], pb[1], pb[2]}, acc
+	}
+	c.browse, c.pass, c.can = bits[0], bits[1], bits[2]
+	if len(bits) == 6 {
+		c.phRoot, c.phHide, c.phIndex = bits[3], bits[4], bits[5]
+	}
+	return c, true
+}
+
+// runPair: `pair <fault> <serve fields of A> // <serve fields of B>` — a request sequence.
+//
+// A is served with a delivery fault (its listing is rendered but the client does not get all
+// of it), then B is served by ANOTHER FileServer instance (its own root, hide list, tree).
+// The answer of the case is B's answer: a response is a function of the request and the
+// instance's configuration, never of what the process served before.  Because sync.Pool gives
+// no hard guarantee which buffer the next Get returns, fault+probe is repeated a few rounds
+// on this one goroutine; the baseline is B served before any fault of this case (twice, so
+// that whatever an earlier case left behind is gone).
+func runPair(f []string) core.Outcome {
+	if len(f) < 4 {
+		return bad()
+	}
+	var fault faultSpec
+	switch {
+	case f[1] == "t":
+		fault = faultSpec{kind: 't'}
+	case len(f[1]) > 1 && f[1][0] == 'w':
+		k, err := strconv.Atoi(f[1][1:])
+		if err != nil || k < 0 || k > 1<<20 || strconv.Itoa(k) != f[1][1:] {
+			return bad()
+		}
+		fault = faultSpec{kind: 'w', k: k}
+	default:
+		return bad()
+	}
+	sep := -1
+	for i, t := range f {
+		if t == "//" {
+			if sep >= 0 {
+				return bad()
+			}
+			sep = i
+		}
+	}
+	if sep < 0 {
+		return bad()
+	}
+	a, okA := parseServe(append([]string{"serve"}, f[2:sep]...))
+	b, okB := parseServe(append([]string{"serve"}, f[sep+1:]...))
+	if !okA || !okB {
+		return bad()
+	}
+	herr := func(err error) core.Outcome {
+		return core.Outcome{Impl: "harness-error", Tags: []string{"harness-error"},
+			Failures: []core.Failure{{Class: "harness-error", What: err.Error()}}}
+	}
+	var base serveObs
+	for i := 0; i < 2; i++ {
+		var err error
+		if base, err = runServe(b); err != nil {
+			return herr(err)
+		}
+	}
+	a.fault = fault
+	o := core.Outcome{Tags: []string{"op:pair", "pair:fault-" + string(fault.kind)}}
+	probe := base
+	faultRendered := false
+	for round := 0; round < 3; round++ {
+		fo, err := runServe(a)
+		if err != nil {
+			return herr(err)
+		}
+		if len(fo.fs.readDir) > 0 {
+			faultRendered = true
+		}
+		if probe, err = runServe(b); err != nil {
+			return herr(err)
+		}
+		if probe.outcome != base.outcome || probe.body != base.body || probe.status != base.status {
+			o.Failures = append(o.Failures, fail("browse-response-depends-on-history",
+				"after a request for %q on root %q whose listing was not delivered (fault %s), the request %q on ANOTHER instance (root %q, hide %q) is answered %d %q instead of %d %q",
+				a.path, a.root, f[1], b.path, b.root, b.hide, probe.status, clip(probe.body), base.status, clip(base.body)))
+			break
+		}
+	}
+	if faultRendered {
+		o.Tags = append(o.Tags, "pair:fault-listing-rendered")
+	}
+	if base.listing != nil {
+		o.Tags = append(o.Tags, "pair:probe-is-listing")
+	}
+	if !faultRendered || base.listing == nil {
+		o.Tags = append(o.Tags, "trivial")
+	}
+	o.Impl = probe.outcome + " | " + showList(probe.fs.opened)
+	o.Failures = append(o.Failures, oracleServe(b, probe)...)
+	return o
+}
+
+func clip(s string) string {
+	if len(s) > 160 {
+		return s[:160] + "…"
+	}
+	return s
+}
+
 func bad() core.Outcome { return core.Outcome{Impl: "bad-op", Tags: []string{"bad-op", "trivial"}} }
 
 func (prop) Run(line string) core.Outcome {
@@ -512,44 +719,9 @@ func (prop) Run(line string) core.Outcome {
 		}
 		return o
 	case "serve":
-		if len(f) != 9 && len(f) != 11 {
+		c, ok := parseServe(f)
+		if !ok {
 			return bad()
-		}
-		var c serveCase
-		var e [4]error
-		var ok1, ok2, ok3, ok4 bool
-		var bits []bool
-		c.cwd, e[0] = core.UnHex(f[1])
-		c.root, e[1] = core.UnHex(f[2])
-		c.hide, ok1 = parseList(f[3])
-		c.index, ok2 = parseList(f[4])
-		bits, ok3 = parseBits(f[5], len(f[5]))
-		if len(f[5]) != 3 && len(f[5]) != 6 {
-			ok3 = false
-		}
-		c.path, e[2] = core.UnHex(f[6])
-		c.orig, e[3] = core.UnHex(f[7])
-		c.tree, ok4 = parseTree(f[8])
-		if e[0] != nil || e[1] != nil || e[2] != nil || e[3] != nil || !ok1 || !ok2 || !ok3 || !ok4 || !validCwd(c.cwd) {
-			return bad()
-		}
-		if len(f) == 11 {
-			pb, okp := parseBits(f[9], 3)
-			acc, oka := parseList(f[10])
-			if !okp || !oka {
-				return bad()
-			}
-			for _, a := range acc {
-				// names are sent in a header field; keep them token-like and lower-case
-				if a == "" || strings.ToLower(a) != a || strings.ContainsAny(a, " ,;=\t\r\n\x00") {
-					return bad()
-				}
-			}
-			c.pre, c.accepted = [3]bool{pb[0], pb[1], pb[2]}, acc
-		}
-		c.browse, c.pass, c.can = bits[0], bits[1], bits[2]
-		if len(bits) == 6 {
-			c.phRoot, c.phHide, c.phIndex = bits[3], bits[4], bits[5]
 		}
 		obs, err := runServe(c)
 		if err != nil {
@@ -560,6 +732,8 @@ func (prop) Run(line string) core.Outcome {
 		o.Tags = serveTags(c, obs)
 		o.Failures = oracleServe(c, obs)
 		return o
+	case "pair":
+		return runPair(f)
 	case "matchfile":
 		if len(f) != 7 {
 			return bad()
